@@ -28,6 +28,12 @@ func envOr(k, d string) string {
 }
 
 func main() {
+	// go/packages looks `go` up through this process's PATH: pin the toolchain the module needs even when the caller
+	// did not source env.sh
+	if _, err := os.Stat("/opt/veriftools/go1.26.8/bin/go"); err == nil {
+		_ = os.Setenv("PATH", "/opt/veriftools/go1.26.8/bin:"+os.Getenv("PATH"))
+		_ = os.Setenv("GOTOOLCHAIN", "local")
+	}
 	if len(os.Args) < 2 {
 		fmt.Fprintln(os.Stderr, "usage: sonicsa check|all|explain|variant|list ...")
 		os.Exit(2)
